@@ -156,6 +156,10 @@ func doCall(kind, gen string, stateful bool, st *genState, c gengo.Context, obj 
 			if strings.HasSuffix(pkgPath, "/q") {
 				lib = "lib2"
 			}
+			if strings.HasPrefix(obj.Name(), "U") {
+				// the many types of the "big" variant refer to six packages whose preferred local name is the same
+				lib = fmt.Sprintf("lib%d", 3+int(obj.Name()[len(obj.Name())-1]-'0')%6)
+			}
 			c.Render(snippet.Snippets(func(yield func(snippet.Snippet) bool) {
 				_ = yield(snippet.Block("\nvar _ ")) && yield(snippet.ID(ModPath+"/"+lib+"/util.T")) && yield(snippet.Block("\n"))
 			}))
